@@ -472,6 +472,10 @@ func verifLemmaSourceConnected(o *IPFSLog, A iface.IPFSLogOrderedEntries) {
 //@ @wf ensures [every-unreferenced-entry-is-a-merged-head] err == nil && size < 0 && l != nil ==> headsAll(l)
 //@ @wf ensures [heads-are-exactly-the-unreferenced-entries] err == nil && size < 0 && l != nil ==> headsExact(l)
 //@ @wf ensures [merge-result-is-the-union-of-both-entry-sets] err == nil && size < 0 && l != nil && otherLog != nil && otherLog.(*IPFSLog) != l && l.ID == otherLog.(*IPFSLog).ID ==> forall k string :: has(ent(l), k) <==> old(has(ent(l), k)) || old(has(ent(otherLog.(*IPFSLog)), k))
+//@ @wf ensures [merged-entries-are-the-source-objects] err == nil && size < 0 && l != nil && otherLog != nil && otherLog.(*IPFSLog) != l ==> forall k string :: has(ent(l), k) && !old(has(ent(l), k)) ==> old(has(ent(otherLog.(*IPFSLog)), k)) && ent(l)[k] == old(ent(otherLog.(*IPFSLog))[k])
+//@ @wf ensures [merge-leaves-the-source-untouched] l != nil && otherLog != nil && otherLog.(*IPFSLog) != l ==> otherLog.(*IPFSLog).heads == old(otherLog.(*IPFSLog).heads) && otherLog.(*IPFSLog).Entries == old(otherLog.(*IPFSLog).Entries) && otherLog.(*IPFSLog).Next == old(otherLog.(*IPFSLog).Next) && otherLog.(*IPFSLog).ID == old(otherLog.(*IPFSLog).ID) && (forall k string :: has(ent(otherLog.(*IPFSLog)), k) == old(has(ent(otherLog.(*IPFSLog)), k)) && ent(otherLog.(*IPFSLog))[k] == old(ent(otherLog.(*IPFSLog))[k]) && has(hds(otherLog.(*IPFSLog)), k) == old(has(hds(otherLog.(*IPFSLog)), k)) && hds(otherLog.(*IPFSLog))[k] == old(hds(otherLog.(*IPFSLog))[k]) && has(idx(otherLog.(*IPFSLog)), k) == old(has(idx(otherLog.(*IPFSLog)), k)) && idx(otherLog.(*IPFSLog))[k] == old(idx(otherLog.(*IPFSLog))[k]))
+//@ @wf ensures [merge-replaces-only-the-heads-map-by-a-new-one] l != nil && size < 0 ==> l.Entries == old(l.Entries) && l.Next == old(l.Next) && (l.heads == old(l.heads) || (fresh(l.heads) && fresh(om(l.heads).values)))
+//@ @wf ensures [merge-keeps-the-logs-separate] l != nil && otherLog != nil && otherLog.(*IPFSLog) != l ==> sepLogs(l, otherLog.(*IPFSLog))
 //@ @wf ensures [merge-with-itself-or-another-log-id-changes-nothing] err == nil && l != nil && otherLog != nil && (otherLog.(*IPFSLog) == l || l.ID != otherLog.(*IPFSLog).ID) ==> l.heads == old(l.heads) && l.Entries == old(l.Entries) && (forall k string :: has(ent(l), k) == old(has(ent(l), k)) && has(hds(l), k) == old(has(hds(l), k)))
 //@   replay joinsize
 //@   loop 0
@@ -579,3 +583,67 @@ func verifLemmaSourceConnected(o *IPFSLog, A iface.IPFSLogOrderedEntries) {
 //@   assert "result = append(result, others...)" [supplied-entries-survive-the-append] forall i int :: 0 <= i && i < len(sourceEntries) ==> exists p int :: 0 <= p && p < len(result) && ehash(result[p]) == ehash(sourceEntries[i])
 //@   loop 0
 //@     invariant len(hashes) == $k && (hashes == nil || fresh(hashes))
+
+// ---- C01: convergence (facet wf) ----
+// Join's contract says: the entries after an unbounded merge are the UNION of both entry sets, and the heads are exactly
+// the entries of that set nothing names. The lemma functions below run the real Join on arbitrary well-formed replicas of
+// one log: exchanging in both directions makes entry sets and heads equal; merging two sources yields a set that is
+// symmetric in the sources (so any order gives it); repeating a merge, or merging an empty log, changes nothing.
+//@ define replica(a *IPFSLog) = a != nil && logInv(a) && storedLog(a) && wfLog(a)
+//@ define replicaPair(a *IPFSLog, b *IPFSLog) = a != b && sepLogs(a, b) && sameLinks(a.Entries, b) && sameLinks(b.Entries, a) && a.ID == b.ID
+
+//@ func verifLemmaExchangeConverges
+//@   lemma
+//@   requires replica(a) && replica(b) && replicaPair(a, b)
+//@   ensures [exchange-makes-entry-sets-equal] result0 == nil && result1 == nil ==> forall k string :: has(ent(a), k) == has(ent(b), k)
+//@   ensures [exchange-makes-heads-equal] result0 == nil && result1 == nil ==> forall k string :: has(hds(a), k) == has(hds(b), k)
+func verifLemmaExchangeConverges(a, b *IPFSLog) (error, error) {
+	_, e1 := a.Join(b, -1)
+	_, e2 := b.Join(a, -1)
+
+	return e1, e2
+}
+
+//@ func verifLemmaMergeOrderIrrelevant
+//@   lemma
+//@   requires replica(a) && replica(b) && replica(c) && replicaPair(a, b) && replicaPair(a, c) && replicaPair(b, c)
+//@   assert "_, e1 := a.Join(b, -1)" [third-replica-is-untouched] logInv(c)
+//@   assert "_, e1 := a.Join(b, -1)" [third-replica-stays-separate] sepLogs(a, c)
+//@   assert "_, e1 := a.Join(b, -1)" [third-replica-stays-well-formed] wfLog(c) && storedLog(c)
+//@   ensures [two-merges-yield-the-union-of-the-three-entry-sets] result0 == nil && result1 == nil ==> forall k string :: has(ent(a), k) <==> old(has(ent(a), k)) || old(has(ent(b), k)) || old(has(ent(c), k))
+//@   ensures [heads-after-two-merges-are-the-unreferenced-entries] result0 == nil && result1 == nil ==> headsExact(a)
+func verifLemmaMergeOrderIrrelevant(a, b, c *IPFSLog) (error, error) {
+	_, e1 := a.Join(b, -1)
+	_, e2 := a.Join(c, -1)
+
+	return e1, e2
+}
+
+//@ func verifLemmaMergeIdempotent
+//@   lemma
+//@   requires replica(a) && replica(b) && replicaPair(a, b)
+//@   ensures [repeating-a-merge-changes-no-entry-and-no-head] result4 == nil && result5 == nil ==> result0 == result1 && result2 == result3
+func verifLemmaMergeIdempotent(a, b *IPFSLog, k string) (bool, bool, bool, bool, error, error) {
+	_, e1 := a.Join(b, -1)
+	_, in1 := a.Entries.Get(k)
+	_, head1 := a.heads.Get(k)
+	_, e2 := a.Join(b, -1)
+	_, in2 := a.Entries.Get(k)
+	_, head2 := a.heads.Get(k)
+
+	return in1, in2, head1, head2, e1, e2
+}
+
+//@ func verifLemmaMergeOfEmptyLogChangesNothing
+//@   lemma
+//@   requires replica(a) && replica(b) && replicaPair(a, b) && len(om(b.Entries).keys) == 0
+//@   ensures [merging-an-empty-log-changes-no-entry-and-no-head] result4 == nil ==> result0 == result1 && result2 == result3
+func verifLemmaMergeOfEmptyLogChangesNothing(a, b *IPFSLog, k string) (bool, bool, bool, bool, error) {
+	_, in1 := a.Entries.Get(k)
+	_, head1 := a.heads.Get(k)
+	_, e1 := a.Join(b, -1)
+	_, in2 := a.Entries.Get(k)
+	_, head2 := a.heads.Get(k)
+
+	return in1, in2, head1, head2, e1
+}
